@@ -19,7 +19,8 @@ package main
 // of a type of C02's universe (nbt.typed ty=<description> fmt= dis=), pk.NBTField.ReadFrom (nbtfield ty= allow=),
 // PaletteContainer.ReadFrom (palette kind= gb=), Section / Chunk / BlockEntity.ReadFrom (section, chunk, blockentity);
 // writers: nbt.Encoder.Encode (nbt ty= val= name= fmt=), PaletteContainer.WriteTo / Section.WriteTo / Chunk.WriteTo of
-// the value a wire form denotes (palette / section / chunk wire=<hex>).
+// the value a wire form denotes (palette / section / chunk wire=<hex>).  Phase 2: chat.nbt / chat.type readers
+// ((*chat.Message).ReadFrom, (*chat.Type).ReadFrom) and the writers chat.msg m=<M> / chat.type id= s=<M> t=<M|-> (C17's tokens).
 // Values are printed with the owning harnesses' functions (nbtcommon.go, c02.go, c12.go, c13.go, c08.go).
 
 import (
@@ -32,6 +33,7 @@ import (
 	"strings"
 	"time"
 
+	"github.com/Tnze/go-mc/chat"
 	"github.com/Tnze/go-mc/level"
 	"github.com/Tnze/go-mc/level/block"
 	"github.com/Tnze/go-mc/nbt"
@@ -87,6 +89,9 @@ var c09Decoders = map[string]c09Dec{
 	"section":     c09RunSection,
 	"chunk":       c09RunChunk,
 	"blockentity": c09RunBlockEntity,
+	// chat: the NBT form of a text component, the chat-type header (C17 stage 2)
+	"chat.nbt":  c09RunChatNBT,
+	"chat.type": c09RunChatType,
 }
 
 func c09RunVarInt(r io.Reader, _ map[string]string) string {
@@ -270,6 +275,20 @@ func c09RunNbtField(r io.Reader, p map[string]string) string {
 		return "err"
 	}
 	return fmt.Sprintf("ok n=%d v=%s", n, c02ShowStr(dst.Elem()))
+}
+
+// (*chat.Message).ReadFrom into a fresh message
+func c09RunChatNBT(r io.Reader, _ map[string]string) string {
+	var m chat.Message
+	n, err := m.ReadFrom(r)
+	return c09Obs(n, err, func() string { return c17PrintMsg(m) })
+}
+
+// (*chat.Type).ReadFrom into a fresh Type
+func c09RunChatType(r io.Reader, _ map[string]string) string {
+	var t chat.Type
+	n, err := t.ReadFrom(r)
+	return c09Obs(n, err, func() string { return c17PrintType(&t) })
 }
 
 func c09Obs(n int64, err error, value func() string) string {
@@ -491,6 +510,9 @@ var c09Encoders = map[string]c09Enc{
 	"section": c09EncSection,
 	"chunk":   c09EncChunk,
 	"nbt":     c09EncNbt,
+	// chat: Message.WriteTo (NBT form) and (*Type).WriteTo (models: Model/WritersChat)
+	"chat.msg":  c09EncChatMsg,
+	"chat.type": c09EncChatType,
 }
 
 func c09EncFld(w io.Writer, p map[string]string) error {
@@ -587,6 +609,23 @@ func c09EncNbt(w io.Writer, p map[string]string) error {
 		e.NetworkFormat(true)
 	}
 	return e.Encode(v.Interface(), string(unhx(p["name"])))
+}
+
+// Message.WriteTo of the component p["m"] (C17's token form)
+func c09EncChatMsg(w io.Writer, p map[string]string) error {
+	_, err := c17ParseMsg(p["m"]).WriteTo(w)
+	return err
+}
+
+// (*Type).WriteTo: p["id"], sender p["s"], target p["t"] (`-`: none)
+func c09EncChatType(w io.Writer, p map[string]string) error {
+	t := chat.Type{ID: int32(c09Int(p["id"])), SenderName: c17ParseMsg(p["s"])}
+	if p["t"] != "-" {
+		m := c17ParseMsg(p["t"])
+		t.TargetName = &m
+	}
+	_, err := t.WriteTo(w)
+	return err
 }
 
 // onceWriter accepts budget bytes, fails once with a short write, and accepts everything afterwards.
@@ -1162,6 +1201,7 @@ var c09Sources = []func(c *Ctx){
 	genC09Bits,
 	genC09Nbt,
 	genC09Level,
+	genC09Chat,
 }
 
 func genC09(c *Ctx) {
@@ -1420,5 +1460,84 @@ func genC09Level(c *Ctx) {
 		params := []c09KV{{"secs", "1"}, {"gbs", gbS}, {"gbb", gbB}}
 		c.c09Suite("chunk", params, in, bounds)
 		c.c09WSuite("chunk", append(params, c09KV{"wire", hx(wire)}), bounds)
+	}
+}
+
+// ---------- chat: the NBT form of text components, the chat-type header ----------
+
+func genC09Chat(c *Ctx) {
+	g := &c17G{c: c, oneKey: true} // one-key hover contents: Go's map order would make two encodings differ
+	wire := func(m chat.Message) ([]byte, bool) {
+		var buf bytes.Buffer
+		ok := false
+		guard(func() { _, err := m.WriteTo(&buf); ok = err == nil })
+		return append([]byte{}, buf.Bytes()...), ok && buf.Len() <= 260
+	}
+	var msgs []chat.Message
+	for _, m := range []chat.Message{chat.Text(""), chat.Text("hi"), {Text: "a", Bold: true, Color: "red"},
+		{Translate: "t.ss", With: chat.TranslateArgs{chat.Text("x"), chat.Text("2")}}, {Translate: "t.ss", With: chat.TranslateArgs{"x", "2"}},
+		{Translate: "t.ss", With: chat.TranslateArgs{chat.Text("x"), "2"}}, // mixed: the strings are written as components
+		{Text: "p", Extra: []chat.Message{chat.Text("e1"), {Text: "e2", Italic: true}}},
+		{Text: "h", HoverEvent: &chat.HoverEvent{Action: "show_text", Value: chat.Text("v")}},
+		{Text: "c", ClickEvent: &chat.ClickEvent{Action: "open_url", Value: "u"}}} {
+		msgs = append(msgs, m)
+	}
+	for i := 0; i < c.N(40, 400); i++ {
+		msgs = append(msgs, g.msg(1+c.R.Intn(2), true, c.R.Intn(3)))
+	}
+	var small []chat.Message
+	for i, m := range msgs {
+		doc, ok := wire(m)
+		if !ok {
+			continue
+		}
+		small = append(small, m)
+		in := append([]byte{}, doc...)
+		if i%2 == 1 {
+			in = append(in, c.randBytes(1+c.R.Intn(3))...)
+		}
+		bounds := c09NbtBounds(doc, false)
+		c.c09Suite("chat.nbt", nil, in, bounds)
+		c.c09WSuite("chat.msg", []c09KV{{"m", c17PrintMsg(m)}}, bounds)
+	}
+	// the other shapes a component may arrive in: a string, a list of components; numeric arguments as typed arrays;
+	// not a component at all
+	for _, doc := range [][]byte{{8, 0, 2, 'h', 'i'}, {8, 0, 0}, {9, 10, 0, 0, 0, 2, 8, 0, 4, 't', 'e', 'x', 't', 0, 1, 'a', 0, 0}, {9, 0, 0, 0, 0, 0},
+		{10, 11, 0, 4, 'w', 'i', 't', 'h', 0, 0, 0, 2, 0, 0, 0, 7, 0xff, 0xff, 0xff, 0xff, 8, 0, 9, 't', 'r', 'a', 'n', 's', 'l', 'a', 't', 'e', 0, 1, 'k', 0},
+		{10, 7, 0, 4, 'w', 'i', 't', 'h', 0, 0, 0, 3, 1, 2, 0xff, 0}, {10, 12, 0, 4, 'w', 'i', 't', 'h', 0, 0, 0, 1, 0, 0, 0, 0, 0, 0, 0, 9, 0},
+		{10, 11, 0, 4, 'w', 'i', 't', 'h', 0xff, 0xff, 0xff, 0xff, 0}, {10, 0}, {1, 5}, {0}, {10, 8, 0, 4, 'T', 'E', 'X', 'T', 0, 1, 'z', 0}} {
+		c.c09Suite("chat.nbt", nil, doc, c09NbtBounds(doc, false))
+		c.c09Suite("chat.nbt", nil, append(append([]byte{}, doc...), 0x7e), c09NbtBounds(doc, false))
+	}
+	// chat-type headers
+	for i := 0; i < c.N(30, 300) && len(small) > 1; i++ {
+		s := small[c.R.Intn(len(small))]
+		id := int32(c.R.Intn(400) - 10)
+		sb, _ := wire(s)
+		in := append(leb(uint64(uint32(id))), sb...)
+		bounds := []int{len(in) - len(sb), len(in)}
+		ts := "-"
+		if i%3 != 0 {
+			t := small[c.R.Intn(len(small))]
+			tb, _ := wire(t)
+			in = append(append(in, 1), tb...)
+			ts = c17PrintMsg(t)
+		} else {
+			in = append(in, 0)
+		}
+		bounds = append(bounds, bounds[1]+1)
+		if len(in) > 300 {
+			continue
+		}
+		full := len(in)
+		if i%2 == 1 {
+			in = append(in, c.randBytes(1+c.R.Intn(3))...)
+		}
+		c.c09Suite("chat.type", nil, in, append(bounds, full))
+		c.c09WSuite("chat.type", []c09KV{{"id", strconv.Itoa(int(id))}, {"s", c17PrintMsg(s)}, {"t", ts}}, bounds)
+	}
+	// a Boolean that is neither 0 nor 1, a missing target, an id of five bytes
+	for _, in := range [][]byte{{5, 8, 0, 1, 'a', 2, 8, 0, 1, 'b'}, {5, 8, 0, 1, 'a', 1}, {0xff, 0xff, 0xff, 0xff, 0x0f, 8, 0, 0, 0}, {5, 0, 0}, {5, 10, 0, 1, 10, 0}} {
+		c.c09Suite("chat.type", nil, in, []int{1, 2})
 	}
 }
